@@ -13,15 +13,15 @@ TRUST = ("Sampling, not proof. Trusted: the harness (sim/src), its toy block cip
 # id -> (built, category, technique, text, design_ref, extra note)
 CHECKS = {
  "C01": (True, "exploration", SIM + ": two parties with independent call schedules and backend widths over a fault-free simulated channel; twin-run oracle",
-         "Seeded search over (mode, cipher, block size, key, IV, message, encrypting schedule, decrypting schedule); decryptor must return the message and unpadded lengths must be preserved. No model: a consistently wrong but invertible mode passes here and fails C02-C06.", "6/C01"),
+         "Seeded search over (mode, cipher, block size, key, IV, message, encrypting schedule, decrypting schedule); the decrypting party may reach a common start offset by another route (consuming keystream instead of seeking) and may crash and restart from its own exported state; decryptor must return the message and unpadded lengths must be preserved. No model: a consistently wrong but invertible mode passes here and fails C02-C04/C06.", "6/C01"),
  "C02": (True, "exploration", SIM + ": seeded call histories (with restart-from-exported-state and clone events, per-call backend width) checked step by step against a reference model",
          "Every operation of a seeded history on cbc/pcbc/ige Encryptor/Decryptor is compared with the defining recurrence (output and exported chaining value), on honest, arbitrary and corrupted ciphertext.", "6/C02"),
  "C03": (True, "exploration", SIM + ": seeded call histories checked step by step against a reference model, plus an invariant over the recorded cipher-seam trace (no decrypt-direction call)",
          "CFB/CFB-8/OFB block-level, one-shot, buffered and byte-stream front ends are compared with the recurrences for every chunking drawn; the seam trace shows only encrypt-direction calls during data processing.", "6/C03"),
  "C04": (True, "exploration", SIM + ": invariant over the recorded cipher-seam trace of seeded apply/seek histories (every block handed to the cipher equals layout(IV, i))",
-         "Partial fit: the property itself is a pure function; what simulation adds is the seam observation point, per-call backend width and histories that reach far/wrapping counter values.", "6/C04"),
+         "Partial fit: the property itself is a pure function; what simulation adds is the seam observation point, per-call backend width and histories (apply / seek / set_block_pos / clone / restart from exported state, all four constructors) that reach far and wrapping counter values.", "6/C04"),
  "C06": (True, "exploration", SIM + ": invariant over the recorded cipher-seam trace of seeded apply/seek histories against the STB 34.101.31 definition",
-         "Partial fit (as C04): seam trace E-inputs must be LE(s0+i+1), first event E(IV); parallel keystream path (never run by the suite) is exercised through widths > 1.", "6/C06"),
+         "Partial fit (as C04): seam trace E-inputs must be LE(s0+i+1), first event E(IV); parallel keystream path (never run by the suite) is exercised through widths > 1; IVs chosen as D(target) so that the 128-bit state sits next to a carry; restart from exported state; all four constructors.", "6/C06"),
  "C07": (True, "exploration", SIM + ": twin runs of the real code under different call compositions, call forms and per-call backend widths vs block-at-a-time at width 1",
          "Output and chaining state after every piece must equal the block-at-a-time run. No model.", "6/C07"),
  "C08": (True, "exploration", SIM + ": twin runs of the real code, seeded chunking of a byte stream vs one call",
@@ -41,9 +41,9 @@ CHECKS = {
  "C15": (True, "fault_enumeration", SIM + ": corruption faults injected on the simulated channel between encryptor and decryptor; twin decryptions clean vs corrupted",
          "All corruption positions are enumerated for each sampled message; the difference must have exactly the support that is a theorem for a bijective cipher; keystream independence checked on the seam trace.", "6/C15"),
  "C16": (True, "exploration", SIM + ": seeded interleaving of operations on an original and its clone (or two unrelated instances) vs sequential replays",
-         "Outputs, positions and exported states of the interleaved actors must equal those of two fresh instances replaying h1;h2 and h1;h3.", "6/C16"),
+         "Outputs, positions and exported states of the interleaved actors (original, one or two clones made by clone or clone_from, or an unrelated instance sharing neither, only the IV, or only the key) must equal those of fresh instances replaying each actor's lineage of calls sequentially; a run that does not reproduce when the same calls are made again is a violation here (hidden global state).", "6/C16"),
  "C17": (True, "fault_enumeration", SIM + ": drop injected at every prefix of a sampled history with a harness-side scan of the object's storage; Debug text compared across instances; positive control build without zeroize",
-         "Good fit for zeroize, thin for Debug.", "6/C17"),
+         "Good fit for zeroize (drop after every prefix of a history, scan for IV, E(IV), exported state, its image under E, block counter and next keystream; control build without zeroize must show residue for every type), thin for Debug ({:?} and {:#?} compared across instances and along a history, incl. at the keystream end).", "6/C17"),
 }
 NA = {
  "C05": "Not a simulation target: the cts types are consumed by a single call, carry no state between calls, and the property is a pure function of (cipher, IV, message) with no schedule, history, fault or second party in it. Running seeded inputs against a reference would be input generation in simulator vocabulary, so it is not claimed (DESIGN.md section 2). The cts code still runs inside C01, C07, C12, C13 and C14, where a schedule, seam or fault does matter.",
